@@ -7,7 +7,7 @@ from fractions import Fraction
 
 THEOREMS = ['set_keys_nodup', 'ofNodes_keys_nodup', 'resolve_any_order', 'run_order_independent', 'sorted_totals_order_irrelevant', 'sorted_elements_order_irrelevant']
 LEVEL = 'proof'
-RULE = ('every command on inputs biased towards what map order could expose: >= 3 unresolved foods, tied quantities, tied element values, near-tied amounts (unequal, closer than 1e-9, names running against the amounts), totals on a half-cent boundary built from non-dyadic terms in >= 3 categories, '
+RULE = ('every command on inputs biased towards what map order could expose: >= 3 unresolved foods, tied quantities, tied element values, near-tied amounts (unequal, closer than 1e-9, names running against the amounts), totals on a half-cent boundary built from non-dyadic terms in >= 3 categories, category quantities on a half-cent boundary, foods whose names differ only in letter case, '
         'recipe chains around the depth limit; each invocation repeated R times in-process (thorough: also as separate processes); '
         'non-trivial = >= 3 entries at a ranged map or >= 2 tied sort keys; distinct by input hash')
 ASSUMPTIONS = ["Go's actual map randomisation is sampled by repetition; the theorem covers every visiting order of the model"]
@@ -81,6 +81,39 @@ def gen(g, count, reps):
             r.shuffle(order)
             log = [(datetime.date(2021, 1, 24), [(foods[i], Qty(dec_str(qs[i]), qs[i], False)) for i in order], [])]
             exact = False
+        if r.random() < 0.15:
+            # half-cent boundary in the *quantities* of one category: plain `bal` adds the logged quantities of a category, the sum
+            # is exactly x.xx5 from non-dyadic terms, so the printed category total depends on the order of the additions
+            from ..gen import dec_str
+            import datetime
+            k = r.randint(3, 6)
+            cat = g.word(3, 6, 0)
+            foods = []
+            while len(foods) < k:
+                nm = (cat + '/' + g.word(3, 7, 0)).encode()
+                if nm not in foods:
+                    foods.append(nm)
+            qs = [Fraction(r.randint(1, 1999), r.choice([100, 1000, 1000])) for _ in foods]
+            partial = sum(qs[:-1])
+            qs[-1] = Fraction(int(partial * 100) + r.randint(1, 200), 100) + Fraction(5, 1000) - partial
+            other = [(g.word(3, 6, 0).encode(), Qty(b'1', Fraction(1)))]
+            order = list(range(k))
+            r.shuffle(order)
+            log = [(datetime.date(2021, 1, 24), [(foods[i], Qty(dec_str(qs[i]), qs[i], False)) for i in order] + other, [])]
+            book = []
+            exact = False
+        if r.random() < 0.3 and log:
+            # names that differ only in letter case are different foods, ordered byte-wise
+            pool = sorted({f for _, ents, _ in log for f, _ in ents if f.isascii() and f.lower() != f.upper()})
+            if pool:
+                idx = r.randrange(len(log))
+                d0, ents0, ns0 = log[idx]
+                ents0 = list(ents0)
+                for f in r.sample(pool, min(len(pool), 2)):
+                    for v in sorted({f.upper(), f.capitalize(), f.swapcase(), f.lower()} - {f}):
+                        if g.wf_name(v):
+                            ents0.append((v, Qty(b'1', Fraction(1))))
+                log = log[:idx] + [(d0, ents0, ns0)] + log[idx + 1:]
         files = base_files(g, book, log)
         n = r.choice([None, None, spec.max_height(spec.book_map(book)), spec.max_height(spec.book_map(book)) + 1])
         for path, args, s in CMDS:
